@@ -2331,7 +2331,10 @@ func (k *Kernel) loadInitialVotingView(ctx context.Context, s *kState) error {
 		vs = k.initialValSet
 	} else {
 		// During initialization, we have set the committing block on the kState value.
-		vs = s.CommittingHeader.ValidatorSet
+		// The voting height is one past the committing header's height,
+		// so it uses the committing header's next validator set,
+		// matching what checkVotingPrecommitViewShift does at runtime.
+		vs = s.CommittingHeader.NextValidatorSet
 	}
 
 	if len(vs.Validators) == 0 {
